@@ -414,6 +414,11 @@ def httpStep (h : HttpSt) (l : String) (ws : List String) : Option (List String 
     match items.find? (fun it => !checkIsoItem it) with
     | none => some ([l, "~ ok"], h)
     | some bad => some ([l, s!"~ violated {bad}"], h)
+  | ["addrace", _name] =>
+    -- specification (scenario of mode d14): of two overlapping adds of one (user, name) exactly one is accepted
+    -- and exactly one document carries that key (what every sequential order of the two requests gives:
+    -- C17.atomic_is_sequential_schedule; the interleaving that breaks it: C17.add_race_duplicate)
+    some ([l, "~ accepted=1 documents=1 code-and-picture-agree=1"], h)
   | ["stored", _key] =>
     -- specification (scenario of mode d9c): an accepted solve of a problem that still exists yields a stored result
     some ([l, "~ Some"], h)
